@@ -13,7 +13,8 @@ import sys
 import numpy as np
 
 EDGES = [0.1, 0.2, 0.3, 0.4]
-PROGRAMS = ("create-centres", "create-ids", "create-hdf", "create-random", "load", "trees", "hist", "auto", "cross", "io")
+PROGRAMS = ("create-centres", "create-ids", "create-hdf", "create-parquet", "create-random", "create-num", "load", "trees",
+            "hist", "auto", "cross", "io")
 NEEDS_FIXTURE = ("load", "trees", "hist", "auto", "cross")
 
 
@@ -119,6 +120,10 @@ def make_fixture(d):
     with h5py.File(os.path.join(d, "input.hdf5"), "w") as f:
         for k in ("ra", "dec", "z", "w"):
             f.create_dataset(k, data=R[k].to_numpy())
+    import pyarrow as pa
+    from pyarrow import parquet
+
+    parquet.write_table(pa.Table.from_pandas(R, preserve_index=False), os.path.join(d, "input.parquet"), row_group_size=2)
 
 
 def program(name, d, max_workers=None):
@@ -143,6 +148,26 @@ def program(name, d, max_workers=None):
         cat = Catalog.from_file(out + "/R", os.path.join(fix, "input.hdf5"), ra_name="ra", dec_name="dec",
                                 redshift_name="z", weight_name="w", patch_centers=centres(), chunksize=3, **mw)
         return obs_catalog(cat)
+    if name == "create-parquet":
+        cat = Catalog.from_file(out + "/R", os.path.join(fix, "input.parquet"), ra_name="ra", dec_name="dec",
+                                redshift_name="z", weight_name="w", patch_name="pid", chunksize=3, **mw)
+        return obs_catalog(cat)
+    if name == "create-num":
+        # generated centres (k-means on the root rank, random initialisation): the partition itself is not
+        # comparable between runs; observed: all records stored once, each in the patch of its nearest centre
+        cat = Catalog.from_dataframe(out + "/R", R, ra_name="ra", dec_name="dec", redshift_name="z", weight_name="w",
+                                     patch_num=2, probe_size=20, chunksize=3, **mw)
+        from vlib import ref
+
+        recs, ok = [], True
+        cen = cat.get_centers().data
+        for pid, p in cat.items():
+            d = p.load_data()
+            recs.append(d)
+            idx, margin = ref.ref_assign(np.column_stack([d["ra"], d["dec"]]), cen)
+            ok = ok and bool(np.all((idx == list(cat.keys()).index(pid)) | (margin < 1e-9)))
+        allrec = np.concatenate(recs)
+        return dict(exact=h(np.sort(allrec, order=list(allrec.dtype.names)), ok, len(cat)), floats=[])
     if name == "create-random":
         from yaw import AngularCoordinates
         from yaw.randoms import BoxRandoms
